@@ -144,6 +144,8 @@ def run(ctx):
                     "dup_attrs": 0.1 if k % 4 == 2 else 0.0, "implicit_consts": 0.5, "const_blocks": 0.25}
             if k % 3 == 1:
                 opts["const_forms"] = ("data1", "data2", "data4", "data8")
+            if k % 2 == 1:
+                opts["cv_variants"] = 0.6        # volatile / restrict / packed in the type chains of constants
             if k % 3 == 0:
                 opts["more_locations"] = 0.4     # data_location, return_addr, static_link, use_location, vtable_elem_location, segment
             if k % 2 == 0:
